@@ -18,7 +18,7 @@ MIX = [('plain', 7), ('int', 3), ('audio', 2), ('clean', 1), ('128', 2), ('zero'
 REQUIRED = ['sim', 'sim:run:start', 'sim:run:cont', 'sim:set', 'sim:clear', 'sim:halt', 'sim:execint', 'fields', 'peek',
             'ts:static:0', 'ts:static:1', 'ts:static:2', 'ts:static:3', 'ts:static:nostop', 'ts:exec', 'ts:exec:text',
             'ts:exec:nosim', 'ts:exec:execint', 'pokes', 'pushs', 'pops', 'bank', 'audio', 'audio:execint1', 'audio:execint2',
-            'kind:plain', 'kind:int', 'kind:audio', 'kind:clean', 'kind:128', 'kind:zero', 'sim:first0'] + \
+            'kind:plain', 'kind:int', 'kind:audio', 'kind:clean', 'kind:128', 'kind:zero', 'sim:first0', 'impl:c', 'impl:py', 'peek:stored'] + \
            ['frag:' + k for k in drv.KINDS48 + ['halt', 'audio', 'page', 'ay']]
 
 
@@ -106,8 +106,8 @@ def run(tier):
             else:
                 o = c['ops'][k - 1]
                 key = 'e01:%s:%s:%s' % (mode, op, what)
-                desc = ('%s (%s, seed %d) op %d %s: clause %s:%s differs in %s mode; asm=%s html=%s; session %s'
-                        % (c['key'], c['kind'], sd, k, drv_text(c, k - 1), op, what, mode, o['asm'], o['html'], c['text']))
+                desc = ('%s (%s/%s, seed %d) op %d %s: clause %s:%s differs in %s mode; asm=%s html=%s; session %s'
+                        % (c['key'], c['kind'], c.get('impl', 'c'), sd, k, drv_text(c, k - 1), op, what, mode, o['asm'], o['html'], c['text']))
             rep.violation(key, desc, replay_of(c))
 
     seen = {}
